@@ -14,12 +14,16 @@ tree). One fixed x86-32 program, two loop iterations over two translated blocks:
 
 Events:  go (start, or continue, until the marker or the END sentinel) / run (to END, marker passes through) /
          cbw(t) (run to END; the marker callback itself patches byte t with vm.set_mem on its first arrival and returns True) /
+         enter (run to END from the mid-chain instruction T2: a second entry point into the already translated chain
+                top..JMP, so that two OVERLAPPING translated blocks exist) /
          arm(t) (the next executions of S1 store the toggled value of target byte t: a GUEST write) /
          hw(t) (vm.set_mem of the toggled value of target byte t: the documented HOST write path).
 Targets: first / middle / last byte of T1 and of U1, the last byte of the block `top` (the displacement of JMP nxt, which is
 the last byte of the whole translated range while `nxt` is not translated yet), and the one-byte T2, U2 in the thorough tier; every alternative byte
 keeps the instruction length (ADD<->SUB EAX, other immediates, ADD ECX -> IMUL EAX,ECX / ADD EBX, INC<->DEC).
-Seeds: cold, stopped at nxt in iteration 1 (block `top` translated, `nxt` not), stopped at nxt in iteration 2 (everything
+Phase `overlap` (own seed: full run, then enter): single writes into the chain top..JMP - the part only the larger
+block owns (T1) or the bytes both blocks share (T2, JMP) - alternate with enter / run, two writes at most, depth 4.
+Seeds (phase `main`): cold, stopped at nxt in iteration 1 (block `top` translated, `nxt` not), stopped at nxt in iteration 2 (everything
 translated), warm (a complete run done) - so writes hit translated instructions of the running block, of the block about
 to run, and of blocks that run again later.
 
@@ -35,7 +39,7 @@ from mc import bfs
 PROP = "C22"
 LEVEL = "model_checking"
 ENGINE = "bfs"
-RULE = ("BFS over histories of go / run / arm(target) / hw(target) on a two-block, two-iteration self-modifying program x {python, gcc} x "
+RULE = ("BFS over histories of go / run / enter(second entry point => overlapping blocks) / cbw / arm(target) / hw(target) on a two-block, two-iteration self-modifying program x {python, gcc} x "
         "jit_maxline {1, 50} from cold / half-translated / fully-translated / warm seeds; targets = first, middle, last byte of an instruction in "
         "the block that contains the store and in the next block; a state is distinct by (code bytes, armed store, position, registers at a stop, "
         "translated block starts)")
@@ -89,7 +93,9 @@ GCC_QUICK_TARGETS = ["t1l", "u1f", "jl"]      # every distinct block content cos
 CBW_QUICK = ["t1l", "u1f"]
 CBW_THOROUGH = ["t1f", "t1l", "u1f", "u1m", "u2"]
 ALL_TARGETS = QUICK_TARGETS + ["t2", "u2"]
-_cfg = {"quick": True}
+_cfg = {"quick": True, "phase": "main"}
+OVERLAP_TARGETS_QUICK = ["t1f", "t1l", "jl"]             # non-shared part of block `top` (T1) / bytes shared with the block entered at T2
+OVERLAP_TARGETS_THOROUGH = ["t1f", "t1m", "t1l", "jl", "t2"]
 _P = {}
 
 
@@ -125,12 +131,14 @@ class Ref(object):
     def rd32(self, a):
         return int.from_bytes(self.mem[a - CODE:a - CODE + 4], "little")
 
-    def start(self, esp):
+    def start(self, esp, pc=CODE, ebp=None):
         edi, edx = self.regs["EDI"], self.regs["EDX"]
         self.regs = dict(REGS0)
         self.regs["EDI"], self.regs["EDX"] = edi, edx
         self.regs["ESP"] = esp
-        self.pc = CODE
+        if ebp is not None:
+            self.regs["EBP"] = ebp
+        self.pc = pc
         self.stops = 0
 
     def go(self, nxt, stop_on_marker, resumed):
@@ -230,7 +238,8 @@ def make(seed):
     st.nev = 0
     st.gos = 0
     st.trailing_writes = 0
-    st.ran = False          # a go/run/cbw event happened after the seed prefix
+    st.ran = False          # a go/run/cbw/enter event happened after the seed prefix
+    st.nwrites = 0          # arm/hw events after the seed prefix
     st.in_seed = True
 
     def marker(j):
@@ -268,6 +277,8 @@ def events(st):
     if st.broken:
         return []
     quick = _cfg["quick"]
+    if _cfg["phase"] == "overlap":
+        return _events_overlap(st, quick)
     targets = _targets(quick, st.backend)
     maxtog = 1 if quick else 2
     tog = _toggled(st)
@@ -276,6 +287,7 @@ def events(st):
         evs.append(("go",))
         if st.ref.phase == "idle":
             evs.append(("run",))
+            evs.append(("enter",))
             if st.trailing_writes == 0:
                 for t in (CBW_QUICK if quick else CBW_THOROUGH):
                     evs.append(("cbw", t))
@@ -290,6 +302,28 @@ def events(st):
         if would > maxtog:
             continue
         if store_ahead and st.armed != t:
+            evs.append(("arm", t))
+        evs.append(("hw", t))
+    return evs
+
+
+def _events_overlap(st, quick):
+    """Phase `overlap`: the seed has translated the chain top..JMP twice (entered at `top` and at T2: two overlapping
+    blocks). Histories alternate single writes into that chain (host or guest) with `enter` (re-runs the block entered at
+    T2 only) or `run` (whole program); at most two writes, so that a write into the part owned by the larger block alone
+    can be followed, after a run, by a write into the bytes both blocks share."""
+    targets = OVERLAP_TARGETS_QUICK if quick else OVERLAP_TARGETS_THOROUGH
+    evs = []
+    if st.gos < 4:
+        evs.append(("enter",))
+        evs.append(("run",))
+    if st.trailing_writes >= 1 or st.nwrites >= 2:
+        return evs
+    tog = _toggled(st)
+    for t in targets:
+        if len(tog) + (0 if t in tog else 1) - (1 if t in tog else 0) > 2:
+            continue
+        if st.armed != t:
             evs.append(("arm", t))
         evs.append(("hw", t))
     return evs
@@ -327,6 +361,7 @@ def apply(st, ev):
         ref.regs["EDI"], ref.regs["EDX"] = a, v
         st.armed = t
         st.trailing_writes += 1
+        st.nwrites += 0 if st.in_seed else 1
         st.writes.append("guest:%s:%s" % (TARGETS[t][3], _block_state(st, t)))
         return []
     if k == "hw":
@@ -336,14 +371,17 @@ def apply(st, ev):
         jit.vm.set_mem(a, bytes([v]))
         ref.mem[a - CODE] = v
         st.trailing_writes += 1
+        st.nwrites += 0 if st.in_seed else 1
         return []
-    # go / run / cbw (run to END; the marker callback patches byte t at its first arrival and lets the run go on)
-    st.gos += 1
+    # go / run / cbw (run to END; the marker callback patches byte t at its first arrival and lets the run go on) /
+    # enter (run to END from the mid-chain instruction T2 with EBP = 1: a second entry point into the translated chain
+    # top..JMP, which makes the translator keep two overlapping blocks)
     st.trailing_writes = 0
     if not st.in_seed:
         st.ran = True
+        st.gos += 1
     cont = ref.phase == "stopped"
-    st.passthrough = k in ("run", "cbw")
+    st.passthrough = k in ("run", "cbw", "enter")
     st.ended = False
     st.cb_write = None
     if k == "cbw":
@@ -355,13 +393,14 @@ def apply(st, ev):
         if cont:
             jit.continue_run()
         else:
-            ref.start(st.sp0 - 4)
+            entry = p["ins"]["T2"] if k == "enter" else CODE
+            ref.start(st.sp0 - 4, entry, 1 if k == "enter" else None)
             for r in GPR:
                 if r != "ESP":
                     setattr(jit.cpu, r, ref.regs[r])
             jit.cpu.ESP = st.sp0
             jit.push_uint32_t(END)
-            jit.run(CODE)
+            jit.run(entry)
         raised = None
     except Exception as e:
         raised = e
@@ -414,7 +453,7 @@ def canon(st):
     ref = st.ref
     return (st.backend, st.maxline, bytes(ref.mem), ref.scratch, ref.phase, ref.stops if ref.phase == "stopped" else 0,
             tuple(ref.regs[r] for r in GPR) if ref.phase == "stopped" else (ref.regs["EDI"], ref.regs["EDX"]),
-            tuple(sorted(st.jit.jit.offset_to_jitted_func.keys())), min(st.gos, 4), st.trailing_writes, st.ran, st.broken and st.nev)
+            tuple(sorted(st.jit.jit.offset_to_jitted_func.keys())), min(st.gos, 4), st.trailing_writes, st.ran, min(st.nwrites, 2), st.broken and st.nev)
 
 
 def outcome(st, ev):
@@ -428,7 +467,14 @@ CONFIGS_THOROUGH = [("python", 50), ("python", 1), ("gcc", 50), ("gcc", 1)]
 PRES = [[], [("go",)], [("go",), ("go",)], [("go",), ("go",), ("go",)]]
 
 
-def seeds(quick):
+OVERLAP_PRE = [("run",), ("enter",)]      # everything translated, then the chain top..JMP entered a second time at T2
+OVERLAP_CONFIGS_QUICK = [("python", 50)]
+PHASE_DEPTH = {"main": {True: 2, False: 3}, "overlap": {True: 4, False: 4}}
+
+
+def seeds(quick, phase="main"):
+    if phase == "overlap":
+        return [(be, ml, OVERLAP_PRE) for (be, ml) in (OVERLAP_CONFIGS_QUICK if quick else CONFIGS_THOROUGH)]
     return [(be, ml, pre) for (be, ml) in (CONFIGS_QUICK if quick else CONFIGS_THOROUGH) for pre in PRES]
 
 
@@ -480,8 +526,8 @@ def _gcc_jobs(quick):
     mls = sorted({ml for be, ml in configs if be == "gcc"})
     for combo, img in _images(quick, "gcc"):
         if 50 in mls:
-            for start, end in ((CODE, p["top"]), (p["top"], p["nxt"]), (p["ins"]["T1"], p["nxt"]), (p["nxt"], offs[-1]), (p["ins"]["U2"], offs[-1]),
-                               (offs[-1], None)):
+            for start, end in ((CODE, p["top"]), (p["top"], p["nxt"]), (p["ins"]["T1"], p["nxt"]), (p["ins"]["T2"], p["nxt"]), (p["nxt"], offs[-1]),
+                               (p["ins"]["U2"], offs[-1]), (offs[-1], None)):
                 key = (start, img[start - CODE:(end - CODE) if end else None])
                 jobs.setdefault(key, ("x86_32", img, CODE, start, (end,) if end else (), 50))
         if 1 in mls:
@@ -502,38 +548,63 @@ def run(ctx):
 
 
 def _run_check(ctx):
+    import time
     from mc import jitx
     _load()
     _cfg["quick"] = ctx.quick
     bfs._SYS = sys.modules[__name__]        # the pool is forked by precompile(), before bfs.explore() sets it
     for sig, what in check_reference(ctx.quick):
-        ctx.violation(sig, what, {"seed": 0, "hist": [], "tier": ctx.tier})
-    import time
+        ctx.violation(sig, what, {"seed": 0, "hist": [], "tier": ctx.tier, "reference": True})
     t0 = time.time()
     compiled = jitx.precompile(ctx, _gcc_jobs(ctx.quick))
     t1 = time.time()
-    sd = seeds(ctx.quick)
-    depth = 2 if ctx.quick else 3
-    cov = bfs.explore(ctx, sys.modules[__name__], max_depth=depth, seeds=sd, chunk=2)
-    cov["seconds_precompile"] = round(t1 - t0, 1)
-    cov["seconds_explore"] = round(time.time() - t1, 1)
-    for v in ctx.violations:
-        v["case"]["tier"] = ctx.tier
-    cov["gcc_blocks_precompiled"] = compiled
-    cov["bounds"] = {"depth": depth, "seeds": len(sd), "configs": CONFIGS_QUICK if ctx.quick else CONFIGS_THOROUGH,
-                     "seed_histories": PRES, "targets": {"python": _targets(ctx.quick, "python"), "gcc": _targets(ctx.quick, "gcc")},
-                     "callback_write_targets": CBW_QUICK if ctx.quick else CBW_THOROUGH,
-                     "max_bytes_differing_from_original": 1 if ctx.quick else 2, "max_go_events": 4}
-    return cov
+    total = None
+    per_phase = {}
+    for phase in ("main", "overlap"):
+        _cfg["phase"] = phase
+        ctx.close()                         # workers read the phase from the forked module state: fork again per phase
+        sd = seeds(ctx.quick, phase)
+        depth = PHASE_DEPTH[phase][ctx.quick]
+        before = len(ctx.violations)
+        cov = bfs.explore(ctx, sys.modules[__name__], max_depth=depth, seeds=sd, chunk=2)
+        for v in ctx.violations[before:]:
+            v["case"]["tier"] = ctx.tier
+            v["case"]["phase"] = phase
+        per_phase[phase] = {k: cov[k] for k in ("states", "transitions", "new_states_per_depth", "distinct_outcomes")}
+        per_phase[phase].update(depth=depth, seeds=len(sd))
+        if total is None:
+            total = cov
+        else:
+            for k in ("states", "transitions", "traces_validated_against_impl", "evaluations", "distinct_nontrivial"):
+                total[k] += cov[k]
+            total["distinct_outcomes"] = max(total["distinct_outcomes"], cov["distinct_outcomes"])
+            total["exhaustive"] = total["exhaustive"] and cov["exhaustive"]
+            total["samples"] = (total["samples"] + cov["samples"])[:4]
+            total["max_depth"] = max(total["max_depth"], cov["max_depth"])
+    total.pop("new_states_per_depth", None)
+    total["phases"] = per_phase
+    total["seconds_precompile"] = round(t1 - t0, 1)
+    total["seconds_explore"] = round(time.time() - t1, 1)
+    total["gcc_blocks_precompiled"] = compiled
+    q = ctx.quick
+    total["bounds"] = {
+        "main": {"depth": PHASE_DEPTH["main"][q], "configs": CONFIGS_QUICK if q else CONFIGS_THOROUGH, "seed_histories": PRES,
+                 "targets": {"python": _targets(q, "python"), "gcc": _targets(q, "gcc")},
+                 "callback_write_targets": CBW_QUICK if q else CBW_THOROUGH, "max_bytes_differing_from_original": 1 if q else 2,
+                 "shape": "seed ; <= %d writes ; runs (go / run / enter / cbw)" % (1 if q else 2)},
+        "overlap": {"depth": PHASE_DEPTH["overlap"][q], "configs": OVERLAP_CONFIGS_QUICK if q else CONFIGS_THOROUGH, "seed_history": OVERLAP_PRE,
+                    "targets": OVERLAP_TARGETS_QUICK if q else OVERLAP_TARGETS_THOROUGH, "max_writes": 2,
+                    "shape": "seed ; single host/guest writes alternating with enter / run"},
+        "max_run_events_after_seed": 4}
+    return total
 
 
 def replay(case):
     _load()
     quick = case.get("tier", "quick") == "quick"
     _cfg["quick"] = quick
-    if not case.get("hist") and case.get("seed") == 0:
+    _cfg["phase"] = case.get("phase", "main")
+    if case.get("reference") or (not case.get("hist") and case.get("seed") == 0 and "phase" not in case):
         from mc.runner import violation
-        vs = [violation(sig, what, case) for sig, what in check_reference(quick)]
-        if vs:
-            return vs
-    return bfs.replay(sys.modules[__name__], seeds(quick), case)
+        return [violation(sig, what, case) for sig, what in check_reference(quick)]
+    return bfs.replay(sys.modules[__name__], seeds(quick, _cfg["phase"]), case)
